@@ -1,6 +1,7 @@
 pub mod c01;
 pub mod c05;
 pub mod c06;
+pub mod c07;
 
 use crate::pool::Merged;
 use crate::shard::Shard;
@@ -34,7 +35,7 @@ impl Prop {
 }
 
 pub fn registry() -> Vec<Prop> {
-    vec![c01::prop(), c05::prop(), c06::prop()]
+    vec![c01::prop(), c05::prop(), c06::prop(), c07::prop()]
 }
 
 pub fn find(id: &str) -> Option<Prop> {
